@@ -693,3 +693,13 @@ def _parent_use(fn, node):
             if c is node:
                 return p
     return None
+
+
+@PROP.obligation('C16.shared-constants')
+def shared_constants(ctx):
+    """The filters that keep private fields out of the dictionary / JSON views are not changed by a call: no function of wallets.py,
+    keys.py, transactions.py or db.py mutates a module-level set / list / dict in place, directly or through a local alias
+    (`skip = SKIP_FIELDS; skip -= {...}` removes the entries for every later call of the process)."""
+    from .common_alias import shared_constants as run
+    run(ctx, ['wallets', 'keys', 'transactions', 'db'],
+        'after one legitimate include_private=True export every later default export (keys(as_dict=True), as_dict(), as_json()) contains the private key bytes and the xprv of every key')
